@@ -55,6 +55,13 @@ func h6Input(env *Env, c *H1Cfg, hr *h1Run, stats simrt.Stats) {
 		return
 	}
 	env.Hit("h6.input_accepted_and_run")
+	if hr.DryProbed > 0 {
+		if hr.DryMin < 0 {
+			env.Violate("C14", "accepted-input-requests-negative-work", "input/"+in.Kind+"/"+c.Mode, "input %q was accepted, but its rate function asks for %d iterations %s after the run", in.Input, hr.DryMin, dur(hr.DryMinAtNs))
+			return
+		}
+		env.Hit("h6.rate_function_probed")
+	}
 	if in.Kind == "peakrate" && in.SpelledIvNs > 0 && !g.Cancelled && stats.Stalls == 0 && hr.HaveResult {
 		// around the peak (within 4 s of it, standard deviation 150 min) every one-second tick requests the peak rate
 		perTick := float64(in.SpelledN) * float64(time.Second) / float64(in.SpelledIvNs)
